@@ -1,5 +1,7 @@
 ------------------------------- MODULE MC_Api -------------------------------
 EXTENDS Api
 Api_Names == { <<"a">>, <<"b">> }
+\* a name with '/' : fine for output and walk, invalid for the validating operations
+Api_NamesSlash == { <<"a">>, <<"a", "SL", "b">> }
 Api_Names3 == { <<"a">>, <<"b">>, <<"a", "SP", "b">> }
 =============================================================================
